@@ -580,6 +580,7 @@ def run(tier, seed):
             (job_cases, ("xtype_structure_extras", extra, xcasesp, "extras", xshapesp))]
     if n_frag:
         jobs.append((job_cases, ("structure_extras_bitvec", extra, fragile, "extras")))
+    t_rep0 = time.time()
     with cf.ThreadPoolExecutor(max_workers=6) as ex:
         futs = [ex.submit(fn, *a) for fn, a in jobs]
         f_sw = [ex.submit(sweep, extra, os.path.join(wd, "sweep_extras.ndjson"), seed, 20000 if quick else 400000),
@@ -590,6 +591,7 @@ def run(tier, seed):
             samples += smp[:1]
             judge(bad, verdict, known, tag, features, seed, counters)
         sweeps = [f.result() for f in f_sw]
+    t_rep = time.time() - t_rep0
 
     sweep_vals = 0
     for feat, sw in zip(("extras", "default"), sweeps):
@@ -676,6 +678,7 @@ def run(tier, seed):
         "features": {"extras(smallvec+bitvec)": True, "default": True},
         "wall_build_s": round(t_build, 1),
         "wall_tlc_s": round(t_tlc, 1),
+        "wall_replay_s": round(t_rep, 1),
     }
     vp.write_evidence(PID, tier, seed, "exploration", coverage, time.time() - t0, len(verdict.violations),
                       assumptions=[
